@@ -210,12 +210,23 @@ fn run_fn(name: &str, f: &[Vec<u8>]) -> (String, Vec<Vec<u8>>) {
             }
             "file_self_use" => {
                 // args: macro name, one `use` item -> (imported path | "-", remaining tree | "-")
-                let um = crate::use_macro::UseMacro::new(&arg(0));
+                // further args: attribute texts; third result = one 0/1 per attribute: `is` after `update` of that single item
+                #[allow(unused_mut)]
+                let mut um = crate::use_macro::UseMacro::new(&arg(0));
                 let iu = syn::parse_str::<syn::ItemUse>(&arg(1)).expect("not a use item");
                 let (p, t) = um.file_self_use(&iu.tree);
                 let ps = match p { Some(p) => quote::quote!(#p).to_string(), None => "-".to_string() };
                 let ts = match t { Some(t) => quote::quote!(#t).to_string(), None => "-".to_string() };
-                vec![ps.into_bytes(), ts.into_bytes()]
+                let mut um2 = crate::use_macro::UseMacro::new(&arg(0));
+                let _ = um2.update(iu.clone());
+                let mut bits = String::new();
+                for i in 2..f.len() {
+                    let text = format!("{} fn foo(){{}}", arg(i));
+                    let item = syn::parse_str::<syn::ItemFn>(&text).expect("attr does not parse");
+                    let a = item.attrs.into_iter().next().expect("no attr");
+                    bits.push(if um2.is(&a) { '1' } else { '0' });
+                }
+                vec![ps.into_bytes(), ts.into_bytes(), bits.into_bytes()]
             }
             "use_is" => {
                 // args: macro name, file text, attribute text: every `use` item of the file goes through
